@@ -1,7 +1,7 @@
 SPECIFICATION Spec
 CONSTANTS
   Types = {"i8", "i16", "i32", "i64", "u8", "u16", "u32", "u64", "usize"}
-  Dirs = {"p2c", "c2p", "p2p"}
+  Dirs = {"p2c", "c2p", "p2p", "plain"}
   Families = {"scalar", "view", "viewlit", "mut", "mix", "cb", "sig", "len"}
   MaxMix = 12
   MoreValues = TRUE
